@@ -13,7 +13,8 @@
                 trip: variant 0 append+pop_back, 2 prepend+pop_front, 1 pop_back+append,
                 3 pop_front+prepend, called at length a.   obs: 1 | 0
                 variants 4..8: a caller generic over Concat (4 over the trait, 5 over both lengths), Split (6),
-                Remove (7), Flatten (8) that states exactly the bounds the declarations ask for
+                Remove (7), Flatten (8) that states exactly the bounds the declarations ask for; 9 / 10: remove / split from a caller
+                generic over the lengths that states the bounds of the impls
      op 9 variant 7: a GenericArray compared (==) with a NATIVE array of a different length: no such comparison
                 is declared, rejected (the harness samples a <> b only: a same-length impl would be harmless)
      op 40      implementing ArrayLength outside the crate: variant 0 with a foreign ArrayType,
